@@ -1,7 +1,8 @@
 """C15 worker: runs the REAL pydoctor value colouriser on encoded expressions.
 
 stdin : JSON list of cases [[expr, linelen, maxlines, linebreakok, ctx], ...]   (linelen -1 = colorize_inline_pyval)
-        or a JSON list of strings: each is parsed with CPython's own reader (spec validation), result ast.dump or null
+        or a JSON list of strings "d<text>" / "t<text>": the text is parsed with CPython's own reader; answer: normalised
+        ast.dump ("d") or the tree in the wire encoding ("t", spec validation), null when CPython rejects the text
 stdout: JSON list, one observation per case.
 
 Expression encoding (nested JSON lists, the same shape the Coq model reads):
@@ -18,8 +19,8 @@ ctx (how the displayed node sits in a tree that already has .parent links, as in
   0 fresh node (no .parent at all: unit-test style call)      1 value of `x = <e>` in a module processed by Parentage
   2 value of keyword `f(k=<e>)` of a parented tree             3 right operand of `x - <e>`    4 operand of `-<e>`
   5 value of `x and <e>`                                       6 default value in `def f(a=<e>): pass` (parent: ast.arguments)
-Observation: {"nodes": [[kind, text]..], "complete": bool, "text": gettext-joined, "warnings": n, "gen": [astor texts of the
-  delegated nodes, preorder], "canon": bool (source tree is one CPython's parser can produce), "dump": ast.dump of the
+Observation: {"nodes": [[kind, text]..], "complete": bool, "text": gettext-joined, "warnings": n, "mexpr": the expression as
+  the Coq model reads it (delegated forms replaced by astor's text), "canon": bool (source tree is one CPython's parser can produce), "dump": ast.dump of the
   normalised source tree, "lw_mutated": bool}
 node kinds: 0 Text, 1 quote inline, 2 string inline, 3 ellipsis-tagged inline (the `...` constant), 4 reference (link),
   5 wbr, 6 LINEWRAP marker, 7 ELLIPSIS marker, 8 UNKNOWN marker, 9 other inline
@@ -165,32 +166,41 @@ def embed(node, ctx):
     Parentage().visit(root)
 
 
-def is_generic(node, colorizer_cls):
-    """Mirror of the dispatch in _colorize_ast, used only to ask astor for the text of delegated nodes."""
-    if isinstance(node, (ast.Constant, ast.UnaryOp, ast.BinOp, ast.BoolOp, ast.List, ast.Tuple, ast.Set, ast.Dict, ast.Name,
-                         ast.Subscript, ast.Call, ast.Starred, ast.keyword)):
-        return False
-    if isinstance(node, ast.Attribute):
-        return False   # handled separately: its astor text is always reported
-    return True
-
-
-def collect_gen(node, out):
-    """astor's text for every node that pydoctor would delegate (preorder), plus for every Attribute node."""
+def astor_text(x):
+    """What astor.to_source gives for this (sub)tree, on a fresh copy (astor leaves _pp attributes on what it prints)."""
     import astor
-    if isinstance(node, ast.Attribute) or is_generic(node, None):
-        try:
-            out.append(astor.to_source(node).strip())
-        except Exception as e:   # noqa
-            out.append(None)
-        if not isinstance(node, ast.Attribute):
-            return
-        collect_gen(node.value, out)
-        return
-    for f in ast.iter_child_nodes(node):
-        if isinstance(f, (ast.expr_context, ast.operator, ast.unaryop, ast.boolop, ast.cmpop)):
-            continue
-        collect_gen(f, out)
+    t = build(x)
+    ast.fix_missing_locations(t)
+    return astor.to_source(t).strip()
+
+
+def to_model(x):
+    """The expression as the Coq model reads it: the forms pydoctor delegates to astor become (13 text) leaves and every
+    Attribute node carries astor's text of itself (the model decides whether it is a dotted name)."""
+    t = x[0]
+    if t in (0, 1):
+        return x
+    if t == 13:
+        return [13, astor_text(x)]
+    if t == 2:
+        return [2, to_model(x[1]), x[2], astor_text(x)]
+    if t == 3:
+        return [3, x[1], to_model(x[2])]
+    if t == 4:
+        return [4, x[1], to_model(x[2]), to_model(x[3])]
+    if t == 5:
+        return [5, x[1], [to_model(v) for v in x[2]]]
+    if t in (6, 7, 8):
+        return [t, [to_model(v) for v in x[1]]]
+    if t == 9:
+        return [9, [[None if k is None else to_model(k), to_model(v)] for k, v in x[1]]]
+    if t == 10:
+        return [10, to_model(x[1]), to_model(x[2])]
+    if t == 11:
+        return [11, to_model(x[1]), [to_model(a) for a in x[2]], [[k, to_model(v)] for k, v in x[3]]]
+    if t == 12:
+        return [12, to_model(x[1])]
+    raise ValueError('bad expression encoding: %r' % (x,))
 
 
 def classify(n, C, nodes_mod, wbr_cls, ref_cls):
@@ -235,8 +245,11 @@ def colorize_cases(cases):
         except Exception:  # noqa
             canon = False
         dump = norm_dump(build(expr))
-        gen = []
-        collect_gen(build(expr), gen)      # on a separate copy: astor leaves _pp attributes on the nodes it prints
+        try:
+            mexpr = to_model(expr)
+        except Exception as e:  # noqa
+            out.append({'error': 'astor: %s: %s' % (type(e).__name__, e)})
+            continue
         try:
             embed(tree, ctx)
             if linelen == -1:
@@ -248,10 +261,12 @@ def colorize_cases(cases):
                    'complete': bool(r.is_complete), 'text': ''.join(gettext(doc)), 'warnings': len(r.warnings)}
         except Exception as e:  # noqa
             obs = {'error': 'colorize: %s: %s' % (type(e).__name__, e)}
-        obs['gen'] = gen
+        obs['mexpr'] = mexpr
         obs['canon'] = canon
         obs['dump'] = dump
         # _trim_result may write into the shared class-level LINEWRAP node; detect and repair so later cases are unaffected
+        if (linelen, maxlines, lb) == (0, 0, 0) and 'text' in obs:
+            obs['toks'] = py_tokens(obs['text'])
         mutated = C.LINEWRAP.astext() != LW
         obs['lw_mutated'] = mutated
         if mutated:
@@ -260,13 +275,81 @@ def colorize_cases(cases):
     return out
 
 
+def py_tokens(text):
+    """CPython's tokenizer on the displayed text: the token strings (layout tokens dropped), or None."""
+    import io
+    import tokenize
+    skip = (tokenize.NEWLINE, tokenize.NL, tokenize.ENDMARKER, tokenize.INDENT, tokenize.DEDENT, tokenize.COMMENT)
+    try:
+        return [t.string for t in tokenize.generate_tokens(io.StringIO(text).readline) if t.type not in skip]
+    except Exception:  # noqa
+        return None
+
+
+def unbuild(n):
+    """ast -> encoding, for the forms the spec reader knows (spec validation); raises on anything else."""
+    if isinstance(n, ast.Constant):
+        v = n.value
+        if v is None:
+            return [0, 3, None]
+        if v is True:
+            return [0, 4, None]
+        if v is False:
+            return [0, 5, None]
+        if v is Ellipsis:
+            return [0, 6, None]
+        if isinstance(v, (int, float, complex)):
+            return [0, 0, str(v)]
+        if isinstance(v, str):
+            return [0, 1, [ord(c) for c in v]]
+        if isinstance(v, bytes):
+            return [0, 2, list(v)]
+        raise ValueError('constant')
+    if isinstance(n, ast.Name):
+        return [1, n.id]
+    if isinstance(n, ast.Attribute):
+        return [2, unbuild(n.value), n.attr, '']
+    if isinstance(n, ast.UnaryOp):
+        return [3, UOPS.index(type(n.op)), unbuild(n.operand)]
+    if isinstance(n, ast.BinOp):
+        return [4, BOPS.index(type(n.op)), unbuild(n.left), unbuild(n.right)]
+    if isinstance(n, ast.BoolOp):
+        return [5, BOOLOPS.index(type(n.op)), [unbuild(v) for v in n.values]]
+    if isinstance(n, ast.Tuple):
+        return [6, [unbuild(v) for v in n.elts]]
+    if isinstance(n, ast.List):
+        return [7, [unbuild(v) for v in n.elts]]
+    if isinstance(n, ast.Set):
+        return [8, [unbuild(v) for v in n.elts]]
+    if isinstance(n, ast.Dict):
+        return [9, [[None if k is None else unbuild(k), unbuild(v)] for k, v in zip(n.keys, n.values)]]
+    if isinstance(n, ast.Subscript):
+        return [10, unbuild(n.value), unbuild(n.slice)]
+    if isinstance(n, ast.Call):
+        return [11, unbuild(n.func), [unbuild(a) for a in n.args], [[k.arg, unbuild(k.value)] for k in n.keywords]]
+    if isinstance(n, ast.Starred):
+        return [12, unbuild(n.value)]
+    raise ValueError('form outside the spec reader: ' + type(n).__name__)
+
+
 def parse_texts(texts):
+    """Each request is "d<text>" (answer: normalised ast.dump or null) or "t<text>" (answer: tree in the wire encoding,
+    null when CPython rejects the text, "?" when the tree uses a form the spec reader does not know)."""
     out = []
-    for t in texts:
+    for req in texts:
+        kind, t = req[0], req[1:]
         try:
-            out.append(norm_dump(ast.parse(t, mode='eval').body))
-        except Exception as e:  # noqa
+            tree = ast.parse(t, mode='eval').body
+        except Exception:  # noqa
             out.append(None)
+            continue
+        if kind == 'd':
+            out.append(norm_dump(tree))
+        else:
+            try:
+                out.append(unbuild(tree))
+            except ValueError:
+                out.append('?')
     return out
 
 
